@@ -467,7 +467,7 @@ def run_to_crs_all(R: Run, pool, variant: str):
     eps_tok = frac_s(Fraction(180) - Fraction(180 - 1e-4))
     orig_buffer = gm.Geometry.buffer
     with _fake_nf(R, crsmod, pool):
-        for rnd in range(R.pick(5, 12)):
+        for rnd in range(R.pick(4, 12)):
             if rnd % 3 == 2:
                 kinds, r0 = c7.multipart_for(rng, origin=(0.0, 0.0))
             else:
@@ -496,6 +496,8 @@ def run_to_crs_all(R: Run, pool, variant: str):
                             continue
                         if kind == "bowtie" and res is not None:
                             continue   # irrational diagonals
+                        if c7.skip_empty_densify(R, gm, shp, res):
+                            continue
                         g = gm.Geometry(shp, es[2])
                         geo = bool(et[2] is not None and et[2].geographic)
                         differ = es[2] is not None and et[2] is not None and not es[2] == et[2]
@@ -663,6 +665,8 @@ def run_lonlat(R: Run, pool):
                                 continue
                             if shp.is_empty and res == r0:
                                 continue
+                            if c7.skip_empty_densify(R, gm, shp, res):
+                                continue
                             one(gm.Geometry(shp, es[2]), es, mode, res,
                                 f"lonlat|{mode}|{'none' if es[2] is None else 'geo' if es[2].geographic else 'proj'}|{where}|"
                                 f"{'r' if res == r0 else res}|{kind}")
@@ -735,9 +739,11 @@ def run_geojson(R: Run, pool, variant: str):
                 (k, s, mr) for k, s in mk.items() if k.startswith("collection")]
             for kind, shp, rr in todo:
                 for es in ents:
-                    if R.quick and not kind.startswith(("gc:", "collection")) and rng.random() < 0.6:
+                    if R.quick and not kind.startswith(("gc:", "collection")) and rng.random() < 0.75:
                         continue
                     for res, wd in itertools.product((None, rr), (False, True)):
+                        if c7.skip_empty_densify(R, gm, shp, res):
+                            continue
                         g = gm.Geometry(shp, es[2])
                         if wd and es[2] is not None and not es[2] == c4326:
                             try:
@@ -815,8 +821,8 @@ def run_collections_pyproj(R: Run):
                 for res, wd, caf in itertools.product((None, r), (False, True), (False, True)):
                     if caf and R.quick and rng.random() < 0.5:
                         continue
-                    if res is not None and any(lf.is_empty for lf in geom_leaves(shp)):
-                        continue   # as found and modelled: densify([]) is an IndexError (see `seg|empty-*`, `geojson` corr)
+                    if c7.skip_empty_densify(R, gm, shp, res):
+                        continue   # as-found tree: densify([]) is an IndexError (reported under its own key)
                     case = {"fn": "to_crs", "kind": kind, "wkt": shp.wkt, "src": a, "dst": b, "resolution": res,
                             "opts": {"wrapdateline": wd, "check_and_fix": caf}}
                     opts = {"wrapdateline": wd, "check_and_fix": caf}
@@ -828,8 +834,8 @@ def run_collections_pyproj(R: Run):
                 if b != "4326":
                     continue
                 for res, wd in itertools.product((None, r), (False, True)):
-                    if res is not None and any(lf.is_empty for lf in geom_leaves(shp)):
-                        continue   # densify of an empty coordinate list is an IndexError (modelled; exercised by `seg` / `geojson` corr)
+                    if c7.skip_empty_densify(R, gm, shp, res):
+                        continue
                     case = {"fn": "geojson-pyproj", "kind": kind, "wkt": shp.wkt, "src": a, "resolution": res, "wrapdateline": wd}
                     try:
                         with warnings.catch_warnings():
@@ -954,6 +960,243 @@ def run_empty_densify(R: Run):
                      f"{how}(resolution=1.0) of {shp.wkt[:70]} {what}", sig=f"empty-densify|{kind}|{how}")
 
 
+# --------------------------------------------------------------------------- projected_lon, chop_along_antimeridian, _geojson_to_shapely
+class FakeSwap:
+    """stand-in projection that is exact on EVERY double (Drv.fakeProjSwap): (x, y) -> (-2y, x/2)"""
+
+    def __init__(self, s: int, t: int):
+        self.s, self.t = s, t
+
+    def transform(self, x, y, **kw):
+        import numpy as np
+
+        if isinstance(x, np.ndarray):
+            return -2 * y, x / 2
+        if isinstance(x, (tuple, list)):
+            return tuple(-2 * b for b in y), tuple(a / 2 for a in x)
+        return -2 * y, x / 2
+
+
+class FakeLat:
+    """stand-in projection that fails by latitude (Drv.fakeProjLat): both coordinates for y > 60, x only for y < -70"""
+
+    def __init__(self, s: int, t: int):
+        self.s, self.t = s, t
+
+    def transform(self, x, y, **kw):
+        import numpy as np
+
+        x, y = np.asarray(x), np.asarray(y)
+        u = 2 * x + y + self.s
+        v = y - x / 2 + 4 * self.t
+        u = np.where((y > 60) | (y < -70), np.inf, u)
+        v = np.where(y > 60, np.inf, v)
+        return u, v
+
+
+def run_projected_lon(R: Run, pool):
+    c7 = _c07()
+    gm, crsmod = c7._mods()  # pylint: disable=protected-access
+    t4326 = pool.rec(crsmod.CRS("EPSG:4326"))
+    ents = pool.entries[:4]
+    with c7.fake_transformers(R, crsmod, lambda a, b: FakeLat(pool._obj[id(a)], pool._obj[id(b)])):  # pylint: disable=protected-access
+        for e in ents:
+            for lon in (180.0, -180.0, 0.0, 10.5):
+                for lat0 in (-90.0, -72.0, -64.0, 0.0, 56.0, 62.0):
+                    for step in (1.0, 0.5, 8.0, 16.0):
+                        for lat1 in (90.0, 64.0, 60.0, -66.0, lat0, lat0 + step, lat0 + 2 * step):
+                            if R.quick and R.rng.random() < 0.7:
+                                continue
+
+                            def f():
+                                try:
+                                    with warnings.catch_warnings():
+                                        warnings.simplefilter("ignore")
+                                        out = gm.projected_lon(e[2], lon, (lat0, lat1), step)
+                                except BaseException as ex:  # pylint: disable=broad-except
+                                    return c7.err_s(ex)
+                                return "L " + pts_nf(out.geom.coords)
+
+                            out = R.corr(f"c07 projlon {t4326} {pool.rec(e[2])} {frac_s(lon)} {frac_s(lat0)} {frac_s(lat1)} {frac_s(step)}", f,
+                                         sig=f"projlon|{'none' if e[2] is None else 'crs'}|" + ("range-empty" if lat1 <= lat0 else "span>=2" if lat1 - lat0 > step else "one-sample"))
+                            R.count("projlon-outcome:" + ("error" if out.startswith("ERR") else "empty" if out == "L []" else "line"))
+                            if e[2] is not None and not out.startswith("ERR"):
+                                # independent of the model: the images of the sampled latitudes that project cleanly, in order;
+                                # a line needs two of them
+                                import numpy as np
+
+                                s_, t_ = pool._obj[id(crsmod.CRS("EPSG:4326").proj)], pool._obj[id(e[2].proj)]  # pylint: disable=protected-access
+                                want = [(Fraction(2 * lon) + Fraction(float(y)) + s_, Fraction(float(y)) - Fraction(lon) / 2 + 4 * t_)
+                                        for y in np.arange(lat0, lat1, step, dtype="float32") if -70 <= float(y) <= 60]
+                                if len(want) < 2:
+                                    want = []
+                                R.oracle(out == "L " + c7.pts_s(want), "projected-lon-wrong-vertices",
+                                         {"fn": "projected_lon", "lon": lon, "lat": [lat0, lat1], "step": step},
+                                         f"projected_lon(lon={lon}, lat=({lat0}, {lat1}), step={step}) with a transformer failing outside "
+                                         f"[-70, 60]: {out[:120]}; {len(want)} samples project cleanly", sig="projlon|vertices")
+
+
+def run_chop(R: Run, pool, variant: str):
+    """geometries that ARE chopped: chop_along_antimeridian and to_crs(wrapdateline=True) with the result of shapely's
+    intersects / split captured on the real run (public Geometry.intersects / Geometry.split) and handed to the model"""
+    from shapely import geometry as sg
+
+    c7 = _c07()
+    gm, crsmod = c7._mods()  # pylint: disable=protected-access
+    rng = R.rng
+    ents = pool.entries[:6]
+    eps_tok = frac_s(Fraction(180) - Fraction(180 - 1e-4))
+    # under FakeSwap the meridian lon=180 of EPSG:4326 becomes the horizontal line y = 90, x in (-180, 180]
+
+    def shapes():
+        x0 = rng.randint(-60, 40) * 1.0
+        w = rng.choice([4.0, 10.0, 25.5])
+        return {
+            "line-crossing": sg.LineString([(x0, 80.0), (x0 + w, 96.0), (x0 + 2 * w, 85.0)]),
+            "line-below": sg.LineString([(x0, 10.0), (x0 + w, 60.0)]),
+            "line-touching": sg.LineString([(x0, 70.0), (x0 + w, 90.0)]),
+            "polygon-crossing": sg.box(x0, 82.0, x0 + w, 101.0),
+            "polygon+hole-crossing": sg.Polygon(sg.box(x0, 70.0, x0 + 3 * w, 110.0).exterior.coords, [sg.box(x0 + w, 85.0, x0 + 2 * w, 95.0).exterior.coords[::-1]]),
+            "polygon-above": sg.box(x0, 95.0, x0 + w, 120.0),
+            "multipolygon-one-crossing": sg.MultiPolygon([sg.box(x0, 80.0, x0 + w, 100.0), sg.box(x0 + 2 * w, 10.0, x0 + 3 * w, 20.0)]),
+            "multiline-crossing": sg.MultiLineString([[(x0, 80.0), (x0, 99.0)], [(x0 + w, 50.0), (x0 + w, 60.0)]]),
+            "collection-crossing": sg.GeometryCollection([sg.box(x0, 85.0, x0 + w, 93.0), sg.Point(x0, 5.0)]),
+            "point-on-line": sg.Point(x0, 90.0),
+            "empty-multipolygon": sg.MultiPolygon(),
+        }
+
+    def captured(call):
+        rec: Dict[str, Any] = {}
+        orig_i, orig_s = gm.Geometry.intersects, gm.Geometry.split
+
+        def spy_i(self, other):
+            r = orig_i(self, other)
+            rec.setdefault("hit", bool(r))
+            return r
+
+        def spy_s(self, other):
+            parts = list(orig_s(self, other))
+            rec.setdefault("pieces", [p.geom for p in parts])
+            return iter(parts)
+
+        gm.Geometry.intersects, gm.Geometry.split = spy_i, spy_s
+        try:
+            with warnings.catch_warnings():
+                warnings.simplefilter("ignore")
+                with c7.time_limit(5):
+                    out = call()
+        except BaseException as ex:  # pylint: disable=broad-except
+            return c7.err_s(ex), rec, None
+        finally:
+            gm.Geometry.intersects, gm.Geometry.split = orig_i, orig_s
+        return None, rec, out
+
+    def chop_tokens(rec):
+        hit = rec.get("hit", False)
+        pieces = rec.get("pieces", []) if hit else []
+        if hit and "pieces" not in rec:
+            return None
+        return f"{'T' if hit else 'F'} {len(pieces)}" + "".join(" " + c7.enc_geom(p) for p in pieces)
+
+    with c7.fake_transformers(R, crsmod, lambda a, b: FakeSwap(pool._obj[id(a)], pool._obj[id(b)])):  # pylint: disable=protected-access
+        for _ in range(R.pick(2, 12)):
+            for kind, shp in shapes().items():
+                for es in ents:
+                    g = gm.Geometry(shp, es[2])
+                    for precision in ((0.5,) if R.quick else (0.5, 0.1, 2.0)):
+                        err, rec, out = captured(lambda: gm.chop_along_antimeridian(g, precision))
+                        toks = chop_tokens(rec)
+                        if toks is None:
+                            if err is not None:
+                                R.count("chop:shapely-split-raised")      # shapely refuses to split this kind: a parameter of the model
+                            else:
+                                note = "chop stream: the pieces of the split were not seen at Geometry.split; cases skipped"
+                                if note not in R.notes:
+                                    R.notes.append(note)
+                            continue
+                        real = err if err is not None else c7.enc_geom(out.geom)
+                        R.corr(f"c07 chop {pool.rec(es[2])} {toks} {c7.enc_geom(shp)}", lambda o=real: o,
+                               sig=f"chop|{'none' if es[2] is None else 'hit' if rec.get('hit') else 'miss'}|{kind}")
+                        if out is not None:
+                            # independent of the model: chopping neither loses nor invents area / length, keeps the CRS, and
+                            # hands a geometry that does not meet the line back as it is
+                            tol = 1e-9 * max(1.0, shp.area, shp.length)
+                            ok = abs(out.geom.area - shp.area) <= tol and abs(out.geom.length - shp.length) <= tol + (
+                                4 * 360.0 if shp.area > 0 else 0.0) and out.crs == g.crs and (rec.get("hit") or out is g)
+                            if rec.get("hit") and shp.geom_type in ("Polygon", "LineString"):
+                                ok = ok and out.geom.geom_type == "Multi" + shp.geom_type     # "multi-geometry that has been split"
+                            R.oracle(ok, "chop-changes-geometry", {"fn": "chop", "wkt": shp.wkt, "precision": precision},
+                                     f"chop_along_antimeridian({shp.wkt[:60]}) -> {out.geom.wkt[:80]}", sig=f"chop|measure|{kind}")
+                    for et in ents:
+                        for wd in (False, True):
+                            if R.quick and rng.random() < 0.5:
+                                continue
+                            geo = bool(et[2] is not None and et[2].geographic)
+                            err, rec, out = captured(lambda: g.to_crs(et[2], wrapdateline=wd))
+                            toks = chop_tokens(rec)
+                            if toks is None:
+                                continue
+                            real = err if err is not None else pool.rec(out.crs) + " " + enc_nf(out.geom)
+                            R.corr(f"c07 tocrschop {variant} {pool.rec(es[2])} {pool.rec(et[2])} {'T' if geo else 'F'} {'T' if wd else 'F'} {eps_tok} "
+                                   f"{toks} {c7.enc_geom(shp)}", lambda o=real: o,
+                                   sig=f"tocrschop|{'wd' if wd else '--'}|{'geo' if geo else 'proj'}|{'chopped' if rec.get('hit') else 'whole'}|{kind}")
+
+
+def run_geojson_shape(R: Run):
+    """Geometry(dict): which geometry a Feature / FeatureCollection / plain GeoJSON geometry becomes"""
+    from shapely import geometry as sg
+
+    c7 = _c07()
+    gm, _ = c7._mods()  # pylint: disable=protected-access
+    atoms = {"pt": sg.Point(1, 2), "pt2": sg.Point(-3, 0.5), "line": sg.LineString([(0, 0), (1, 1)]), "poly": sg.box(0, 0, 2, 2),
+             "polyh": sg.Polygon(sg.box(0, 0, 8, 8).exterior.coords, [sg.box(1, 1, 2, 2).exterior.coords]), "mpt": sg.MultiPoint([(0, 0), (1, 1)]),
+             "mpoly": sg.MultiPolygon([sg.box(0, 0, 1, 1)]), "poly0": sg.Polygon(), "line0": sg.LineString()}
+
+    def feat(k):
+        return {"type": "Feature", "geometry": sg.mapping(atoms[k]), "properties": {"name": k}}
+
+    cases: List[Any] = [("X", {"coordinates": [1, 2]}, "no-type"), ("X", {}, "no-type")]
+    for k, shp in atoms.items():
+        cases.append(("G " + c7.enc_geom(shp), sg.mapping(shp), "geometry"))
+        cases.append(("F " + c7.enc_geom(shp), feat(k), "feature"))
+        cases.append(("F " + c7.enc_geom(shp), {**feat(k), "type": "FEATURE"}, "feature"))
+    names = list(atoms)
+    tok_members: Dict[str, List[str]] = {}
+    combos: List[Any] = [()]
+    for n in (1, 2, 3):
+        for combo in itertools.product(names, repeat=n):
+            if n == 3 and R.rng.random() > R.pick(0.1, 1.0):
+                continue
+            combos.append(combo)
+    for combo in combos:
+        tok = " ".join([f"FC {len(combo)}"] + [c7.enc_geom(atoms[k]) for k in combo])
+        tok_members[tok] = list(combo)
+        cases.append((tok, {"type": R.rng.choice(["FeatureCollection", "featurecollection"]), "features": [feat(k) for k in combo]},
+                      f"fc|n={len(combo)}"))
+    for tok, d, sig in cases:
+        def f():
+            try:
+                with warnings.catch_warnings():
+                    warnings.simplefilter("ignore")
+                    return c7.enc_geom(gm.Geometry(d).geom)
+            except BaseException as ex:  # pylint: disable=broad-except
+                return c7.err_s(ex)
+
+        real = R.corr("c07 gjshape " + tok, f, sig="gjshape|" + sig)
+        if sig.startswith("fc|") and not real.startswith("ERR"):
+            members = [atoms[k] for k in tok_members.get(tok, [])]
+            kinds_ = {m.geom_type for m in members}
+            got = gm.Geometry(d).geom
+            if len(members) == 1:
+                okg = got.wkb == members[0].wkb
+            elif len(kinds_) == 1 and next(iter(kinds_)) in ("Polygon", "Point", "LineString"):
+                okg = got.geom_type == "Multi" + next(iter(kinds_)) and [x.wkb for x in got.geoms] == [m.wkb for m in members if not m.is_empty]
+            else:
+                okg = got.geom_type == "GeometryCollection" and len(got.geoms) == len(members)
+            R.oracle(okg, "feature-collection-wrong-shape", {"fn": "gjshape", "members": [m.wkt for m in members]},
+                     f"Geometry(FeatureCollection of {[m.geom_type for m in members]}) is {got.wkt[:100]}", sig="gjshape|members")
+
+
 def run_options(R: Run):
     import time
 
@@ -968,6 +1211,8 @@ def run_options(R: Run):
     for name, fn in (("construct", lambda: run_construct(R)), ("multigeom", lambda: run_multigeom(R)), ("clip2", lambda: run_clip2(R, variant)),
                      ("filter", lambda: run_filter(R)), ("to_crs_all", lambda: run_to_crs_all(R, pool, variant)),
                      ("lonlat", lambda: run_lonlat(R, pool)), ("geojson", lambda: run_geojson(R, pool, variant)),
+                     ("projected_lon", lambda: run_projected_lon(R, pool)), ("chop", lambda: run_chop(R, pool, variant)),
+                     ("geojson_shape", lambda: run_geojson_shape(R)),
                      ("collections_pyproj", lambda: run_collections_pyproj(R)), ("lonlat_pyproj", lambda: run_lonlat_pyproj(R)),
                      ("empty_densify", lambda: run_empty_densify(R))):
         t0 = time.time()
